@@ -509,6 +509,20 @@ package http2
 //@ # the output is exactly as long as the codes need, rounded up to whole octets (padding < 8 bits)
 //@ ensures size: 8 * (len(r0) - len(dst)) >= spec.hbits(old(src), len(src)) && 8 * (len(r0) - len(dst)) < spec.hbits(old(src), len(src)) + 8
 
+//@ func ToLower
+//@ props C01 C02
+//@ # header field names are sent in lower case (RFC 7540 section 8.1.2): the letters A-Z become a-z and every other octet -
+//@ # '_' and '^' are legal in a field name - stays what it was
+//@ modifies contents(b)
+//@ # (that nothing but b's own octets changes is not proved: a loop forgets the whole byte heap and the contract language has
+//@ # no invariant for "every other array is untouched")
+//@ opt noframe=true
+//@ macro lowered(x) = ite(x >= 'A' && x <= 'Z', x + 32, x)
+//@ loop 0: invariant same: sameslice(b, old(b))
+//@ loop 0: invariant done: forall(j, 0, rangeindex + 1, b[j] == lowered(old(b)[j]))
+//@ loop 0: invariant rest: forall(j, rangeindex + 1, len(b), b[j] == old(b)[j])
+//@ ensures lower: sameslice(r0, b) && forall(j, 0, len(b), r0[j] == lowered(old(b)[j]))
+
 //@ func errors.Is
 //@ trusted
 //@ pure
